@@ -3,9 +3,10 @@
    Model: Model/NetAdapter.v; proofs: Proofs/NetAdapterProofs.v.
 
    Quantification: every backlog capacity c, every list of events `evs` (connects, stream arrivals,
-   wraps, the two outcomes of the delivery select, Accept, wrapper Close — also repeated —, session
-   death, the three steps of listener Close at any moment and in any interleaving, any number of
-   sessions and streams).  `run` skips an event that is not enabled in the current state, so the
+   wraps, the two outcomes of the delivery select and their follow-ups, Accept, wrapper Close — also
+   repeated —, session death, any number of possibly overlapping listener.Close calls stepped one
+   atomic action at a time (CAS, close(closeCh), every round of the backlog drain, release), any
+   number of sessions and streams).  `run` skips an event that is not enabled in the current state, so the
    theorems cover exactly the histories the state machine can produce.
 
    PROVED here: the reference-count / delivery protocol and the Read/Write contract of the copy
@@ -17,14 +18,16 @@ Import ListNotations.
 Open Scope Z_scope.
 
 (* every wrapper (= one stream handed out by AcceptStream, wrapped once) is in exactly one place:
-   delivered by Accept, waiting in the backlog, dropped by the select, or still at the select; it
-   was sent into the backlog at most once and received from it at most once, in FIFO order; and per
-   session: streams arrived = streams still in acceptCh + wrappers made *)
+   delivered by Accept, waiting in the backlog, taken aside by the adapter to be Closed, Closed by the
+   adapter, or still at the delivery select; it was sent into the backlog at most once and received
+   from it at most once, in FIFO order; and per session: streams arrived = streams still in acceptCh
+   + wrappers made *)
 Theorem C19_once : forall c evs, let st := run evs (init c) in
-  delivered st ++ backlog st = enq_log st /\
-  NoDup (delivered st ++ backlog st ++ lost st) /\
-  (forall w, In w (delivered st ++ backlog st ++ lost st) -> (w < nwr st)%nat) /\
+  recv_log st ++ backlog st = enq_log st /\
+  NoDup (places st) /\
+  (forall w, In w (places st) -> (w < nwr st)%nat) /\
   selecting_ok st /\
+  (forall w, (w < nwr st)%nat -> In w (places st) \/ loop (sess_of st (w_sess (wr st w))) = LSelecting w) /\
   (length (backlog st) <= cap st)%nat /\
   (forall s, (s < nsess st)%nat ->
      arrived (sess_of st s) = (inq (sess_of st s) + count (fun w => Nat.eqb (w_sess (wr st w)) s) (nwr st))%nat).
@@ -54,31 +57,36 @@ Proof. exact refcount_closed_iff. Qed.
 Print Assumptions C19_refcount_closed_iff.
 
 (* FULL statement of "closing the listener lets sessions end once their connections are closed":
-   the user can only close connections that Accept returned *)
+   once a listener.Close has run and the adapter is at rest (no Close call in progress, no accept
+   goroutine between its select and the follow-up of the branch it took, no conn taken aside and not
+   yet Closed), every session whose conns handed out by Accept are all closed is closed.  The user
+   can only close conns that Accept returned; everything else is the adapter's job. *)
 Definition C19_sessions_end_full : Prop :=
   forall c evs, let st := run evs (init c) in
-    lreleased st = true ->
+    lreleased st = true -> at_rest st = true ->
     forall s, (s < nsess st)%nat ->
       (forall w, In w (delivered st) -> w_sess (wr st w) = s -> w_closed (wr st w) = true) ->
-      is_selecting (loop (sess_of st s)) = false ->
       sclosed (sess_of st s) = true.
 
-(* FALSE of the faithful model: a wrapper sitting in the backlog when the listener is closed (or one
-   dropped by the select) keeps its reference forever.  Witness: witness_backlog (vm_compute). *)
-Theorem C19_refuted : ~ C19_sessions_end_full.
-Proof. exact sessions_end_refuted. Qed.
-Print Assumptions C19_refuted.
+(* TRUE of the repaired adapter (fix: the accept goroutine Closes a conn that lost to closeCh and
+   re-checks closeCh after a successful enqueue; listener.Close drains the backlog).  Before the
+   repair this statement was refuted (a conn left in the backlog, or dropped by the select, pinned
+   its session); the two refuting histories are the regression examples at the end of this file and
+   scenarios 0 and 1 of the harness. *)
+Theorem C19_sessions_end : C19_sessions_end_full.
+Proof. exact sessions_end. Qed.
+Print Assumptions C19_sessions_end.
 
-(* strongest provable form: hypothesis = every wrapper of the session has been closed (which
-   requires that it was delivered: WClose is only enabled on delivered wrappers) *)
-Theorem C19_partial_sessions_end : forall c evs, let st := run evs (init c) in
+(* independent of rest: every wrapper of the session closed and the listener's reference released
+   => the session is closed *)
+Theorem C19_sessions_end_if_all_closed : forall c evs, let st := run evs (init c) in
   lreleased st = true ->
   forall s, (s < nsess st)%nat ->
     (forall w, (w < nwr st)%nat -> w_sess (wr st w) = s -> w_closed (wr st w) = true) ->
     sclosed (sess_of st s) = true /\
     (registered (sess_of st s) = true -> wg_zero (sess_of st s) = true /\ refs (sess_of st s) = 0).
-Proof. exact sessions_end_partial. Qed.
-Print Assumptions C19_partial_sessions_end.
+Proof. exact sessions_end_if_all_closed. Qed.
+Print Assumptions C19_sessions_end_if_all_closed.
 
 (* io.Reader: Read(p) with p non-empty and data buffered returns no error and exactly the next
    min(len p, available) >= 1 bytes of the stream, leaving the rest, for every slicing of the data *)
@@ -121,15 +129,41 @@ Theorem C19_io_stream : forall ops, let p := io_run ops in
 Proof. exact io_stream. Qed.
 Print Assumptions C19_io_stream.
 
-(* non-vacuity: two sessions, backlog 1; one conn delivered and closed twice, one lost to closeCh;
-   session 1 ends, session 0 stays pinned (refs = 1) *)
+(* non-vacuity: two sessions, backlog 1; one conn delivered and closed twice, one lost to closeCh and
+   Closed by the accept goroutine, one received by listener.Close's drain; both sessions end *)
 Example C19_example_run :
-  let evs := [SessionUp; SessionUp; StreamIn 0; StreamIn 1; Wrap 0; Enqueue 0; Wrap 1; StreamIn 0;
-              Accept; Enqueue 1; Wrap 0; LMark; LSignal; Lose 0; LRelease; Accept; WClose 0; WClose 0; WClose 1] in
+  let evs := [SessionUp; SessionUp; StreamIn 0; StreamIn 1; Wrap 0; Enqueue 0; PostCheck 0; Wrap 1; StreamIn 0;
+              Accept; Enqueue 1; PostCheck 1; Wrap 0; LCall; LStep 0; LStep 0; Lose 0; LStep 0; LStep 0; CloseTaken 2;
+              CloseTaken 1; LStep 0; WClose 0; WClose 0] in
   let st := run evs (init 1) in
-  accepts (init 1) evs = true /\ delivered st = [0; 1]%nat /\ lost st = [2]%nat /\ panic st = false /\
-  map (fun s => refs (sess_of st s)) [0; 1]%nat = [1; 0] /\
-  map (fun s => sclosed (sess_of st s)) [0; 1]%nat = [false; true].
+  accepts (init 1) evs = true /\ delivered st = [0]%nat /\ aclosed st = [2; 1]%nat /\ panic st = false /\
+  at_rest st = true /\
+  map (fun s => refs (sess_of st s)) [0; 1]%nat = [0; 0] /\
+  map (fun s => sclosed (sess_of st s)) [0; 1]%nat = [true; true].
+Proof. vm_compute. repeat split. Qed.
+
+(* regression: the two histories that refuted the statement before the repair *)
+Example C19_regression_conn_left_in_backlog :
+  let evs := [SessionUp; StreamIn 0; Wrap 0; Enqueue 0; PostCheck 0; LCall; LStep 0; LStep 0; LStep 0; LStep 0; CloseTaken 0; LStep 0] in
+  let st := run evs (init 1) in
+  accepts (init 1) evs = true /\ at_rest st = true /\ lreleased st = true /\ delivered st = [] /\
+  sclosed (sess_of st 0%nat) = true.
+Proof. vm_compute. repeat split. Qed.
+
+Example C19_regression_conn_lost_to_closeCh :
+  let evs := [SessionUp; StreamIn 0; Wrap 0; Enqueue 0; PostCheck 0; StreamIn 0; Wrap 0; LCall; LStep 0; LStep 0; Lose 0;
+              LStep 0; LStep 0; LStep 0; CloseTaken 1; CloseTaken 0] in
+  let st := run evs (init 1) in
+  accepts (init 1) evs = true /\ at_rest st = true /\ lreleased st = true /\ delivered st = [] /\
+  sclosed (sess_of st 0%nat) = true.
+Proof. vm_compute. repeat split. Qed.
+
+(* the race the repair has to survive: the enqueue wins the select AFTER listener.Close drained *)
+Example C19_regression_enqueue_after_drain :
+  let evs := [SessionUp; StreamIn 0; Wrap 0; LCall; LStep 0; LStep 0; LStep 0; LStep 0; Enqueue 0; PostCheck 0; GDrain 0;
+              GDrain 0; CloseTaken 0] in
+  let st := run evs (init 1) in
+  accepts (init 1) evs = true /\ at_rest st = true /\ lreleased st = true /\ sclosed (sess_of st 0%nat) = true.
 Proof. vm_compute. repeat split. Qed.
 
 Example C19_example_io :
